@@ -391,7 +391,7 @@ func init() {
 		ID:    "C07",
 		Level: "model_checking",
 		Rule: "full matrix: every pool value (all variant types with boundaries) x all 11 target types x both managers against a reference conversion table (result type, payload where the table defines it, result XOR error, operand unchanged, type-safe whitelist, managers agree); " +
-			"plus the same matrix on a long-lived manager with a source object that was converted once and then changed in place (must equal a fresh object); plus every two-step chain src->dst->src of the lossless table for every pool value inside the exact range; non-trivial = conversions to a different type / applicable chains",
+			"plus the same matrix on a long-lived manager with a source object that was converted once and then changed in place (must equal a fresh object), and every conversion repeated after the caller overwrote the returned variant; plus every two-step chain src->dst->src of the lossless table for every pool value inside the exact range; non-trivial = conversions to a different type / applicable chains",
 		Assume: []string{"string->number/date parsing and any->string formatting are done by the external commons converters (trusted base); their payloads are not predicted except Integer/Long/Boolean->String", "conversions the statement does not list may succeed or fail in the type-unsafe manager"},
 		Spaces: func(tier string) []fw.Space {
 			pool := valuePool("thorough")
@@ -405,6 +405,13 @@ func init() {
 					Repr: func(i int64) string {
 						return fmt.Sprintf("%s Convert to %s on a reused manager, source object first holding %s then changed in place", mgrName(i%2 == 1), tn(allTypes[int(i/2)%len(allTypes)]), pool[int(i/2)/len(allTypes)].label)
 					}},
+				{Name: "result-isolation", N: int64(len(pool) * len(allTypes) * 2), Run: func(c *fw.Ctx, i int64) {
+					to := int(i/2) % len(allTypes)
+					src := int(i/2) / len(allTypes)
+					c06ResultIsolation(c, pool, int64(src*len(pool)+src)*2+i%2, to)
+				}, Repr: func(i int64) string {
+					return fmt.Sprintf("%s Convert(%s, %s), result overwritten by the caller, same conversion again", mgrName(i%2 == 1), pool[int(i/2)/len(allTypes)].label, tn(allTypes[int(i/2)%len(allTypes)]))
+				}},
 				{Name: "chains", N: int64(len(pool) * len(chains)), Run: func(c *fw.Ctx, i int64) { c07ChainRun(c, pool, chains, i) },
 					Repr: func(i int64) string {
 						ch := chains[int(i)%len(chains)]
